@@ -7,6 +7,9 @@
 import json, subprocess, sys, os
 from pathlib import Path
 ROOT = Path(__file__).resolve().parent.parent
+# SEEDED_WT=1: work in a scratch worktree /tmp/wt_seed_<name> of /repo's HEAD instead of /repo's working tree (checks then run
+# with VERIF_REPO pointing there), so that seeded changes can be tried while other checks use /repo
+WT = bool(os.environ.get("SEEDED_WT"))
 REPO = "/repo"
 
 def sh(cmd, **kw):
@@ -39,7 +42,7 @@ def confirm(name, prop):
     apply(name)
     try:
         r1 = demo(name)
-        t = sh(f"cd {REPO} && /venv/bin/python -m pytest -q -p no:cacheprovider -x 2>&1 | tail -1")
+        t = sh(f"cd {REPO} && PYTHONPATH={REPO}/src:{REPO}/tests/tests_helpers /venv/bin/python -m pytest -q -p no:cacheprovider -x 2>&1 | tail -1")
         diff = sh(f"git -C {REPO} diff").stdout
     finally:
         clean()
@@ -64,7 +67,8 @@ def run(name, props):
     apply(name)
     try:
         for p in props:
-            r = sh(f"cd {ROOT} && ./check {p} --tier quick", env={**os.environ, "VERIF_OUT_DIR": "/tmp/vf_seeded_out"})
+            r = sh(f"cd {ROOT} && ./check {p} --tier quick", env={**os.environ, "VERIF_OUT_DIR": f"/tmp/vf_seeded_out_{name}" if WT else "/tmp/vf_seeded_out",
+                                                                **({"VERIF_REPO": REPO} if WT else {})})
             lines = [l for l in r.stdout.splitlines() if l.startswith("VIOLATION") or l.startswith("KNOWN")]
             meta["detected_by"][p] = {"exit": r.returncode, "violations": [l[:300] for l in lines[:5]]}
             print(name, p, "exit", r.returncode, *(l[:260] for l in lines[:3]), sep="\n   ")
@@ -76,6 +80,14 @@ def run(name, props):
 
 if __name__ == "__main__":
     cmd, name, *rest = sys.argv[1:]
+    if WT:
+        REPO = f"/tmp/wt_seed_{name}"
+        sh(f"git -C /repo worktree remove --force {REPO}")
+        r = sh(f"git -C /repo worktree add {REPO} HEAD")
+        if r.returncode != 0:
+            sys.exit(f"cannot create worktree: {r.stderr}")
+        import atexit
+        atexit.register(lambda: (sh(f"git -C /repo worktree remove --force {REPO}"), sh("git -C /repo worktree prune"), sh(f"rm -rf /tmp/vf_seeded_out_{name}")))
     if cmd == "confirm":
         confirm(name, rest[0])
     else:
